@@ -189,7 +189,7 @@ def run_obligations(pid, obs, tier, log):
             json.dump(dict(obligation=o["name"], property=pid, failed=v.failed, counterexample=v.witness), open(rpath, "w"), indent=1, default=str)
             r["replay_path"] = rpath
             r["reproduced"] = None
-            if v.replay_rust is not None:
+            if v.replay_rust is not None and REPO == "/repo":
                 from . import replay as RP
                 ok, rp = RP.run_native(pid, o["name"], v.replay_rust, log)
                 r["reproduced"] = ok
